@@ -120,6 +120,15 @@ def c15_jobs(tier, seed):
     return j
 
 
+def c04_jobs(tier, seed):
+    q = tier == "quick"
+    n = 14
+    j = [Job("dbg", "w_proc", "c04 --scenario all --nshards %d --shard %d --stride %d --seed %d --secs %d" % (n, i, 3 if q else 1, seed, 150 if q else 1500), timeout=400 if q else 2400, engine="ptrace-stepper") for i in range(n)]
+    if not q:
+        j += [Job("dbg", "w_proc", "c04 --scenario all --markers --nshards %d --shard %d --stride 1 --seed %d --secs 1500" % (n, i, seed), timeout=2400, engine="ptrace-stepper+atomic-markers") for i in range(n)]
+    return j
+
+
 PROPS = {
     "C09": {
         "level": "exploration",
@@ -195,5 +204,13 @@ PROPS = {
         "rule": "allocator level: random cases over a grid of awkward layouts (bucket size 1-72 incl. sizes that are not a multiple of the alignment, alignment 1-64, block start misaligned by 0-63, partial last bucket, compile-time bucket limit reached) for bb-memory PoolAllocator, bb-elementary BumpAllocator and OneChunkAllocator: allocate / deallocate / grow front+back / shrink with an allocation shadow (bounds, alignment, size, disjointness), pattern fill verified on release, guard bytes around the block, exhaustion probe after freeing everything; failing cases are shrunk (debug, release, ASan, Miri). Port level: publisher with slice payloads and BestFit/PowerOfTwo/Static strategy, subscribers holding samples across repeated segment growth on local and ipc services. Non-trivial = a case with two or more successful allocations / a history with a growth step while samples were held; distinct = distinct (allocator, layout, block, operations) / (config, events).",
         "assumptions": ["cal shm allocators (pool/bump with offsets) are reached through the port-level growth scenario (data segments use them), not driven directly"],
         "floor": (10000, 100),
+    },
+    "C04": {
+        "level": "fault_enumeration",
+        "jobs": c04_jobs,
+        "exhaustive": lambda tier: tier == "thorough",
+        "rule": "for each scenario (node create/drop; publish-subscribe, event, request-response, blackboard: service + ports + traffic + orderly shutdown) the child process is killed before each of its system-call stops (file, descriptor, memory-map, lock calls; thorough: every stop and additionally after every shared-memory atomic write; quick: every 3rd stop, offset by the seed); a separate survivor process then lists nodes, removes stale resources, lists again, checks the residue (directory + /dev/shm listing by name), re-creates the same service name with different settings and exchanges data, checks the residue again. Non-trivial = a crash point at which at least one file or shm object of the child existed; distinct = distinct (scenario, stop index, system call, object kind). exhaustive (thorough) means: every stop of the listed classes in the listed scenarios.",
+        "assumptions": ["process death is injected with SIGKILL at system-call entry (and after atomic writes with markers); not machine crashes, not torn single system calls", "a survivor hang counts only when it reproduces (watchdog 6 s, twice)", "crash points are named by (phase, system call, object kind), known findings are keyed on (scenario pattern, phase, outcome class)"],
+        "floor": (100, 30),
     },
 }
